@@ -263,7 +263,9 @@ def lazySourceNext : LSrc → LSrc × SRes
 inductive LSS (σ α : Type)
   | uninit (fut : List Bool) (stream : List (Option Nat)) (mk : σ)
   | thunk (fut : List Bool) (stream : List (Option Nat)) (mk : σ) (item : Option α)
-  | done (stream : List (Option Nat)) (s : σ) (buf : Option α)
+  /-- `rdy` = the field `sink_ready`: the inner sink's `poll_ready` answered `Ready` and nothing was
+  sent to it since (it stays `false` when the sink half answered `Ready` while still `Uninit`) -/
+  | done (stream : List (Option Nat)) (s : σ) (buf : Option α) (rdy : Bool)
   deriving Repr
 
 structure LssSt (σ α : Type) where
@@ -272,35 +274,41 @@ structure LssSt (σ α : Type) where
   inits : Nat
   deriving Repr
 
-/-- the sink half's `poll_ready` / `poll_flush` / `poll_close` -/
-def lssOp {σ α : Type} (k : Snk σ α) (op : σ → σ × Bool) (l : LssSt σ α) : LssSt σ α × Bool :=
-  let afterDone (stream : List (Option Nat)) (s : σ) (buf : Option α) : LssSt σ α × Bool :=
+/-- the sink half's `poll_ready` (`isReady = true`: it records the inner answer in `sink_ready`) /
+`poll_flush` / `poll_close` (`isReady = false`: `sink_ready` is left alone) -/
+def lssOp {σ α : Type} (k : Snk σ α) (op : σ → σ × Bool) (isReady : Bool) (l : LssSt σ α) : LssSt σ α × Bool :=
+  let afterDone (stream : List (Option Nat)) (s : σ) (buf : Option α) (rdy : Bool) : LssSt σ α × Bool :=
     match buf with
     | some item =>
       let a := k.pollReady s
       if a.2 then
         let s2 := (k.startSend a.1 item).1
         let r := op s2
-        ({ l with st := .done stream r.1 none }, r.2)
-      else ({ l with st := .done stream a.1 (some item) }, false)
+        ({ l with st := .done stream r.1 none (if isReady then r.2 else rdy) }, r.2)
+      else ({ l with st := .done stream a.1 (some item) rdy }, false)
     | none =>
       let r := op s
-      ({ l with st := .done stream r.1 none }, r.2)
+      ({ l with st := .done stream r.1 none (if isReady then r.2 else rdy) }, r.2)
   match l.st with
   | .uninit _ _ _ => (l, true)
   | .thunk fut stream mk item =>
     let f := futPoll fut
-    if f.2 then afterDone stream mk item else ({ l with st := .thunk f.1 stream mk item }, false)
-  | .done stream s buf => afterDone stream s buf
+    if f.2 then afterDone stream mk item false else ({ l with st := .thunk f.1 stream mk item }, false)
+  | .done stream s buf rdy => afterDone stream s buf rdy
 
 def lssSink {σ α : Type} (k : Snk σ α) : Snk (LssSt σ α) α where
-  pollReady := lssOp k k.pollReady
+  pollReady := lssOp k k.pollReady true
   startSend := fun l x => match l.st with
     | .uninit fut stream mk => ({ st := .thunk fut stream mk (some x), inits := l.inits + 1 }, true)
-    | .thunk _ _ _ _ => (l, false)   -- panic!("LazySinkHalf not ready.")  (finding F4 when `item` is `None`)
-    | .done stream s buf => let r := k.startSend s x; ({ l with st := .done stream r.1 buf }, r.2)
-  pollFlush := lssOp k k.pollFlush
-  pollClose := lssOp k k.pollClose
+    | .thunk _ _ _ (some _) => (l, false)   -- panic!("LazySinkHalf not ready.")
+    -- `Ready` was answered while `Uninit`, then the source half started the initialisation: the slot is free
+    | .thunk fut stream mk none => ({ l with st := .thunk fut stream mk (some x) }, true)
+    | .done stream s buf rdy =>
+      -- `if !mem::take(sink_ready) { *buf = Some(item) }`: the inner sink was not readied, hold the item
+      if rdy then let r := k.startSend s x; ({ l with st := .done stream r.1 buf false }, r.2)
+      else ({ l with st := .done stream s (some x) false }, true)
+  pollFlush := lssOp k k.pollFlush false
+  pollClose := lssOp k k.pollClose false
 
 /-- the source half's `poll_next` -/
 def lssNext {σ α : Type} (l : LssSt σ α) : LssSt σ α × SRes :=
@@ -309,12 +317,20 @@ def lssNext {σ α : Type} (l : LssSt σ α) : LssSt σ α × SRes :=
     let f := futPoll fut
     if f.2 then
       let r := streamPoll stream
-      (⟨.done r.1 mk item, inits⟩, r.2)
+      (⟨.done r.1 mk item false, inits⟩, r.2)
     else (⟨.thunk f.1 stream mk item, inits⟩, .pending)
   match l.st with
   | .uninit fut stream mk => thunk fut stream mk none (l.inits + 1)
   | .thunk fut stream mk item => thunk fut stream mk item l.inits
-  | .done stream s buf => let r := streamPoll stream; ({ l with st := .done r.1 s buf }, r.2)
+  | .done stream s buf rdy => let r := streamPoll stream; ({ l with st := .done r.1 s buf rdy }, r.2)
+
+/-- `LazySinkHalf::start_send` as it was before the repair of findings F4 / F4b (kept to state the
+refutations): any `Thunkulating` state panics, `Done` forwards without looking at `sink_ready` -/
+def lssStartSendBeforeFix {σ α : Type} (k : Snk σ α) (l : LssSt σ α) (x : α) : LssSt σ α × Bool :=
+  match l.st with
+  | .uninit fut stream mk => ({ st := .thunk fut stream mk (some x), inits := l.inits + 1 }, true)
+  | .thunk _ _ _ _ => (l, false)
+  | .done stream s buf _ => let r := k.startSend s x; ({ l with st := .done stream r.1 buf false }, r.2)
 
 /-! ### drivers: `send_iter.rs`, `send_stream.rs` -/
 
